@@ -164,20 +164,95 @@ func checkC09(c *Ctx) {
 			}
 			return true
 		})
-		// validation loop: the one ranging over the merged map
+		// by role: a merge loop stores into a map; the validation loop constructs the violations. The validation loop
+		// ranges over the merged map itself or over a slice of its keys that every merge loop appends to.
 		var vloop *ast.RangeStmt
 		var mergeLoops []*ast.RangeStmt
+		storesIntoMap := func(l *ast.RangeStmt) bool {
+			hit := false
+			ast.Inspect(l.Body, func(n ast.Node) bool {
+				if as, ok := n.(*ast.AssignStmt); ok {
+					for _, lh := range as.Lhs {
+						if ix, ok := lh.(*ast.IndexExpr); ok {
+							if tv, ok := ep.Info.Types[ix.X]; ok {
+								if _, isMap := tv.Type.Underlying().(*types.Map); isMap {
+									hit = true
+								}
+							}
+						}
+					}
+				}
+				return true
+			})
+			return hit
+		}
+		buildsViolation := func(l *ast.RangeStmt) bool {
+			hit := false
+			ast.Inspect(l.Body, func(n ast.Node) bool {
+				if x, ok := n.(*ast.CompositeLit); ok {
+					if tv, ok := ep.Info.Types[x]; ok && typeIsNamed(tv.Type, "sebuf/http", "FieldViolation") {
+						hit = true
+					}
+				}
+				return true
+			})
+			return hit
+		}
 		for _, l := range loops {
-			if tv, ok := ep.Info.Types[l.X]; ok {
+			switch {
+			case buildsViolation(l):
+				vloop = l
+			case storesIntoMap(l):
+				mergeLoops = append(mergeLoops, l)
+			}
+		}
+		specName := "headerSpec"
+		if vloop != nil {
+			if tv, ok := ep.Info.Types[vloop.X]; ok {
 				if _, isMap := tv.Type.Underlying().(*types.Map); isMap {
-					vloop = l
+					if id, ok := vloop.Value.(*ast.Ident); ok {
+						specName = id.Name
+					}
 				} else {
-					mergeLoops = append(mergeLoops, l)
+					// range over a key slice: the spec is m[key]; every merge loop must append its key to that slice
+					keyVar, _ := vloop.Value.(*ast.Ident)
+					sliceObj := ep.Info.ObjectOf(rootIdentOf(vloop.X))
+					okSpec := false
+					ast.Inspect(vloop.Body, func(n ast.Node) bool {
+						if as, ok := n.(*ast.AssignStmt); ok && len(as.Lhs) == 1 && len(as.Rhs) == 1 {
+							if ix, ok := ast.Unparen(as.Rhs[0]).(*ast.IndexExpr); ok && keyVar != nil {
+								if id, ok := ast.Unparen(ix.Index).(*ast.Ident); ok && ep.Info.ObjectOf(id) == ep.Info.ObjectOf(keyVar) {
+									if l, ok := as.Lhs[0].(*ast.Ident); ok {
+										specName = l.Name
+										okSpec = true
+									}
+								}
+							}
+						}
+						return true
+					})
+					r.Check(okSpec, "R09b", "validateHeaders: the validation loop over the key list reads each header from the merged map", ep.GenPos(vloop.Pos()),
+						"the validation loop ranges over "+ep.Text(vloop.X)+" but does not look the header up in the merged map by that key")
+					for _, ml := range mergeLoops {
+						appends := false
+						ast.Inspect(ml.Body, func(n ast.Node) bool {
+							if as, ok := n.(*ast.AssignStmt); ok && len(as.Lhs) == 1 && len(as.Rhs) == 1 {
+								if call, ok := ast.Unparen(as.Rhs[0]).(*ast.CallExpr); ok && types.ExprString(call.Fun) == "append" {
+									if id := rootIdentOf(as.Lhs[0]); id != nil && ep.Info.ObjectOf(id) == sliceObj {
+										appends = true
+									}
+								}
+							}
+							return true
+						})
+						r.Check(appends, "R09b", "validateHeaders: every merge loop adds its keys to the list the validation loop follows ("+ep.Text(ml.X)+")", ep.GenPos(ml.Pos()),
+							"the merge loop over "+ep.Text(ml.X)+" stores headers into the map but not into "+ep.Text(vloop.X)+", the list the validation loop follows: required headers declared only there are never validated")
+					}
 				}
 			}
 		}
 		if vloop == nil {
-			r.Unres("R09b", "validation loop", ep.GenPos(vh.Pos()), "no loop over the merged header map")
+			r.Unres("R09b", "validation loop", ep.GenPos(vh.Pos()), "no loop that builds the header violations")
 		} else {
 			early := ""
 			nAppend := 0
@@ -201,7 +276,7 @@ func checkC09(c *Ctx) {
 								}
 							}
 						}
-						if f != "headerSpec.GetName()" {
+						if f != specName+".GetName()" {
 							fieldsOK = false
 						}
 					}
